@@ -149,13 +149,14 @@ class _R:
                     if not s.startswith(' ') and not can_tight(a, a) and a.k in WORDISH + ('str',):
                         s = ' ' + s
                 self.nlines += 1
-                return s + self.eol() + cs.pick(['', ' ', '    ', '\t', indent + '    ', '          '])
+                # (a continuation line is not measured as indentation: blanks and tabs in any order, form feeds)
+                return s + self.eol() + cs.pick(['', ' ', '    ', '\t', indent + '    ', '          ', '  \t', ' \t ', '\t \t', '\x0c  ', '  \x0c\t'])
             if k == 11:
                 # explicit line joining
                 self.feats.add('backslash_join')
                 self.nlines += 1
                 pre = '' if can_tight(a, b) and cs.bool() else ' '
-                return pre + '\\' + self.eol() + cs.pick(['', ' ', '    ', '\t', indent])
+                return pre + '\\' + self.eol() + cs.pick(['', ' ', '    ', '\t', indent, '  \t', ' \t  ', '\x0c '])
             return ' '
         return ' '
 
